@@ -36,10 +36,12 @@ def main():
         args.remove(','.join(checks)) if ','.join(checks) in args else None
     if '--tier' in sys.argv:
         tier = sys.argv[sys.argv.index('--tier') + 1]
-    src = '/tmp/seed-%s/out' % prop
-    diff = os.path.join(src, 'change_%s.diff' % i)
-    demo = os.path.join(src, 'demo_%s.py' % i)
-    notes = os.path.join(src, 'notes_%s.md' % i)
+    # ids 1-2: first seeding round (/tmp/seed-<prop>), ids 3-5: second round (/tmp/seed2-<prop>, its files 1-3)
+    j = i if int(i) <= 2 else str(int(i) - 2)
+    src = ('/tmp/seed-%s/out' if int(i) <= 2 else '/tmp/seed2-%s/out') % prop
+    diff = os.path.join(src, 'change_%s.diff' % j)
+    demo = os.path.join(src, 'demo_%s.py' % j)
+    notes = os.path.join(src, 'notes_%s.md' % j)
     kept = os.path.join(V, 'seeded', '%s-%s' % (prop, i))
     if not os.path.exists(diff) and os.path.exists(os.path.join(kept, 'patch.diff')):
         # the sub-agent's scratch worktree is gone: re-evaluate the filed copy
